@@ -690,7 +690,7 @@ def canon_model(t):
         else:
             acts.append(["or", a, b])
     return {"out": CLASS[cls], "code": code - U32 if code >= (1 << 31) else code, "rem": rem, "state": hx(state),
-            "kv": [[hx((kn, kw)), hx(v)] for kn, kw, v in kv],   # ((n,ws),(n',ws')) prints as (n, ws, (n', ws')) "logs": [[hx(e) for e in seg] for seg in logs], "rv": hx(rv),
+            "kv": [[hx((kn, kw)), hx(v)] for kn, kw, v in kv], "logs": [[hx(e) for e in seg] for seg in logs], "rv": hx(rv),
             "actions": acts, "ints": [hx(i) for i in ints], "changed": [x == "true" for x in changed],
             "hashes": [(k, unpk(d)) for k, d in hashes], "unspec": unspec == "true", "lower": lower == "true", "ticks": ticks}
 
